@@ -9,8 +9,8 @@ cd $W || exit 2
 git reset -q --hard HEAD; git clean -fdq -e target
 git apply $S/patch.diff && git apply $S/demo.diff || { echo "APPLY FAILED"; exit 2; }
 echo "== with patch: demo"; cargo test --offline $TARGET -- "$@" 2>&1 | grep -E "^test result|^test .*FAILED$|error(\[|:)" | tail -8
-git apply -R $S/patch.diff
+git apply -R $S/patch.diff; sleep 1; touch $(grep "^+++ b/" $S/patch.diff | sed "s|+++ b/||")
 echo "== without patch: demo"; cargo test --offline $TARGET -- "$@" 2>&1 | grep -E "^test result|error(\[|:)" | tail -4
-git apply -R $S/demo.diff; git apply $S/patch.diff
+git apply -R $S/demo.diff; git apply $S/patch.diff; sleep 1; touch $(grep "^+++ b/" $S/patch.diff | sed "s|+++ b/||")
 echo "== with patch only: existing tests ($TARGET)"; cargo test --offline $TARGET 2>&1 | grep -E "^test result|error(\[|:)" | tail -3
 git reset -q --hard HEAD; git clean -fdq -e target
